@@ -15,6 +15,8 @@ Reads qtoggleserver/slaves/devices.py and qtoggleserver/slaves/ports.py of the t
                                   attrs.pop(name)` (pops from the dict it iterates) or a read-only loop followed by
                                   `attrs.update(provisioning_attrs)`; and fetch_and_update_device: `update_cached_attrs(attrs)`
                                   directly, or after `attrs.update(self.get_provisioning_attrs())` (both sites the same way)
+     offline_write_clears_queue   SlavePort.write_value (slaves/ports.py), offline branch: `self._remote_value_queue.clear()`
+                                  before `self._cached_value = value`, or no use of the queue at all
 Closed list of shapes; anything else raises Untranslatable -> status 'untranslatable' (the check then looks for a failing input).
 """
 import ast
@@ -194,6 +196,24 @@ def fetch_device(fn):
     raise Untranslatable('fetch_and_update_device: attrs is modified in an unexpected way before update_cached_attrs')
 
 
+def offline_write(fn):
+    """SlavePort.write_value -> bool: does the offline branch drop the queued remote values before recording the pending value"""
+    body = fn.body
+    if len(body) != 1 or not isinstance(body[0], ast.If) or ast.unparse(body[0].test) != 'self._slave.is_online()':
+        raise Untranslatable('SlavePort.write_value: expected a single `if self._slave.is_online(): ... else: ...`')
+    off = [st for st in body[0].orelse if not _is_debug(st)]
+    src = [ast.unparse(st) for st in off]
+    if 'self._cached_value = value' not in src or "self._provisioning.add('value')" not in src:
+        raise Untranslatable('SlavePort.write_value: the offline branch does not record the pending value as modelled')
+    i = src.index('self._cached_value = value')
+    touching = [x for x in src if '_remote_value_queue' in x]
+    if not touching:
+        return False
+    if touching == ['self._remote_value_queue.clear()'] and src.index('self._remote_value_queue.clear()') < i:
+        return True
+    raise Untranslatable('SlavePort.write_value: unexpected use of _remote_value_queue in the offline branch: %s' % touching)
+
+
 def master_attrs():
     tree = ast.parse(_src('qtoggleserver/slaves/ports.py'))
     for node in tree.body:
@@ -215,7 +235,9 @@ def _both(a, b):
 
 def read_cfg():
     tree = ast.parse(_src('qtoggleserver/slaves/devices.py'))
+    ptree = ast.parse(_src('qtoggleserver/slaves/ports.py'))
     return {
+        'offline_write_clears_queue': offline_write(_method(ptree, 'SlavePort', 'write_value')),
         'value_push_has_body': value_push(_method(tree, 'Slave', 'apply_provisioning')),
         'port_update_keeps_pending': port_update(_method(tree, 'Slave', '_handle_port_update')),
         'device_update_keeps_pending': _both(device_update(_method(tree, 'Slave', '_handle_device_update')),
@@ -241,11 +263,11 @@ def translate_c13(ctx):
         cfg = read_cfg()
     except (Untranslatable, SyntaxError, OSError) as e:
         return {'status': 'untranslatable', 'detail': str(e)}
-    text = ('(* generated by harness/translate/slavesync.py from qtoggleserver/slaves/devices.py - do not edit *)\n'
+    text = ('(* generated by harness/translate/slavesync.py from qtoggleserver/slaves/devices.py, ports.py - do not edit *)\n'
             'From QT Require Import C12.Mirror.\n'
-            'Definition cfg_src : cfg := mk_cfg %s %s %s.\n'
+            'Definition cfg_src : cfg := mk_cfg %s %s %s %s.\n'
             % tuple(coq.boolean(cfg[k]) for k in ('value_push_has_body', 'port_update_keeps_pending',
-                                                  'device_update_keeps_pending')))
+                                                  'device_update_keeps_pending', 'offline_write_clears_queue')))
     coq.write_gen('C13Gen.v', text)
     ctx.c13_cfg = cfg
     return {'status': 'ok', 'detail': cfg}
